@@ -178,11 +178,29 @@ func (w *World) callEffects(ci ssa.CallInstruction, depth int) storeSummary {
 	}
 	callee := cc.StaticCallee()
 	if callee == nil {
+		// a call through an unexported package-level function variable that nothing in the
+		// repository ever assigns (a debug hook that is nil by default) never runs
+		if w.deadHookCall(cc) {
+			return out
+		}
 		out["all"] = true
 		return out
 	}
 	if w.isRepoFn(callee) && len(callee.Blocks) > 0 {
 		return w.storesOfFn(callee, depth)
+	}
+	// sync/atomic operations write their operand only
+	if callee.Pkg != nil && callee.Pkg.Pkg.Path() == "sync/atomic" || (callee.Object() != nil && callee.Object().Pkg() != nil && callee.Object().Pkg().Path() == "sync/atomic") {
+		if len(cc.Args) > 0 {
+			if fa, ok := cc.Args[0].(*ssa.FieldAddr); ok {
+				out["field:"+fieldOfAddr(fa).Name()] = true
+				return out
+			}
+			if g, ok := cc.Args[0].(*ssa.Global); ok {
+				out["global:"+g.Name()] = true
+				return out
+			}
+		}
 	}
 	pkg := ""
 	if callee.Pkg != nil {
@@ -987,4 +1005,63 @@ func (p *prover) retryNeqs() {
 		}
 	}
 	p.neqs = rest
+}
+
+var neverAssignedCache map[*ssa.Global]bool
+
+// neverAssigned: g is an unexported package-level variable of the repository that no function
+// of the repository (package initialisers included) stores to or takes the address of for
+// anything but loading: it keeps its zero value for ever.
+func (w *World) neverAssigned(g *ssa.Global) bool {
+	if g == nil || g.Object() == nil || g.Object().Exported() || g.Pkg == nil || !strings.HasPrefix(g.Pkg.Pkg.Path(), modulePath) {
+		return false
+	}
+	if neverAssignedCache == nil {
+		neverAssignedCache = map[*ssa.Global]bool{}
+	}
+	if v, ok := neverAssignedCache[g]; ok {
+		return v
+	}
+	ok := true
+	scan := func(f *ssa.Function) {
+		instrsOf(f, func(in ssa.Instruction) {
+			var ops []*ssa.Value
+			for _, op := range in.Operands(ops) {
+				if *op != ssa.Value(g) {
+					continue
+				}
+				if ld, isLd := in.(*ssa.UnOp); isLd && ld.Op == token.MUL && ld.X == ssa.Value(g) {
+					continue // a load
+				}
+				ok = false
+			}
+		})
+	}
+	for _, f := range w.SrcFuncs() {
+		scan(f)
+	}
+	// package initialisers (synthetic init functions hold the stores of `var x = ...`; a
+	// variable declared without a value has no store there)
+	for _, sp := range w.SSA {
+		if f := sp.Func("init"); f != nil {
+			scan(f)
+		}
+	}
+	neverAssignedCache[g] = ok
+	return ok
+}
+
+// deadHookCall: the call goes through a never-assigned function variable (see neverAssigned).
+func (w *World) deadHookCall(cc *ssa.CallCommon) bool {
+	if cc.IsInvoke() {
+		return false
+	}
+	v := stripConv(cc.Value)
+	// through phis / the nil test: the value is a load of the global
+	if ld, ok := v.(*ssa.UnOp); ok && ld.Op == token.MUL {
+		if g, ok := ld.X.(*ssa.Global); ok {
+			return w.neverAssigned(g)
+		}
+	}
+	return false
 }
